@@ -1,5 +1,7 @@
 import JadeModel.Proofs.Lifecycle
 
+set_option linter.unusedSimpArgs false
+
 /-!
 # C16 — setup and teardown commands run exactly once, at the right time
 
@@ -163,23 +165,6 @@ theorem C16_failing_setup_stops (cfg : Cfg) (r : Round) (hl : NoLegacy cfg) (hr 
 
 /-! ## D. Teardown: exactly once per completion, after the summary, before the flag -/
 
-theorem completionEvs_count_flag (c : Ctx) : (completionEvs c).countP (·.isFlag) = 1 := by
-  unfold completionEvs teardownEvs reportsEvs nextStageEvs
-  cases c.cfg.teardown <;> cases c.cfg.reports <;> cases c.cfg.pipelineStage <;> simp [Ev.isFlag, List.countP_cons]
-
-theorem completionEvs_count_teardown (c : Ctx) :
-    (completionEvs c).countP (·.isHookOf .teardown) = if c.cfg.teardown then 1 else 0 := by
-  unfold completionEvs teardownEvs reportsEvs nextStageEvs
-  cases c.cfg.teardown <;> cases c.cfg.reports <;> cases c.cfg.pipelineStage <;> simp [Ev.isHookOf, List.countP_cons]
-
-theorem beforeCompletion_count (c : Ctx) (p : Ev → Bool) (hp : ∀ e, p e = true → e.isCompletion = true) :
-    (beforeCompletion c).countP p = 0 := by
-  rw [List.countP_eq_zero]
-  intro e he hpe
-  have := beforeCompletion_not_completion c e he
-  rw [hp e hpe] at this
-  cases this
-
 /-- per call: the flag is set once iff the call reaches the completion; the teardown command runs once iff it is
     configured and the call reaches the completion — for every set of results and every return code -/
 theorem C16_round_counts (cfg : Cfg) (r : Round) (hl : NoLegacy cfg) :
@@ -321,10 +306,6 @@ theorem C16_node_commands_once (cfg : Cfg) (c : Ctx) (hl : NoLegacy cfg) :
 
 /-! ## F. Configuring commands never prevents results from being recorded -/
 
-def noHooksCtx (c : Ctx) : Ctx := { c with cfg := c.cfg.noHooks }
-
-theorem noLegacy_noHooks (cfg : Cfg) (hl : NoLegacy cfg) : NoLegacy cfg.noHooks := hl
-
 /-- a node whose node setup command does not fail does, apart from the commands themselves, EXACTLY what it does with no
     command configured: the same job starts, the same result rows recorded, the same try-submit, no exception —
     whatever the node teardown command returns -/
@@ -435,22 +416,6 @@ theorem C16_commands_transparent_round (cfg : Cfg) (r : Round) (hl : NoLegacy cf
         hs, ht, hr, hp, hn, hne, hns, hnt]
 
 /-! ## G. All interleavings: the setup command precedes everything any node does -/
-
-/-- the processes of a submission: the (serialised) submit side and one node per batch -/
-inductive Proc where
-  | submit
-  | node (b : Nat)
-  deriving DecidableEq, Repr
-
-/-- the events of process `p` in a global schedule -/
-def proj (p : Proc) (g : List (Proc × Ev)) : List Ev :=
-  g.filterMap (fun x => if x.1 = p then some x.2 else none)
-
-/-- a global schedule of a submission: its submit-side projection is the history's trace, and a node does something only
-    after its batch was handed to the HPC (the one fact about SLURM used) — otherwise ANY interleaving -/
-structure Execution (cfg : Cfg) (rs : List Round) (g : List (Proc × Ev)) : Prop where
-  submit : proj .submit g = submitSide cfg rs
-  causal : ∀ pre post b e, g = pre ++ (Proc.node b, e) :: post → (Proc.submit, Ev.sbatch b) ∈ pre
 
 /-- in every interleaving, whatever a node does (node setup, every job start, …) happens after the setup command ran -/
 theorem C16_setup_before_every_node_event (cfg : Cfg) (rs : List Round) (g : List (Proc × Ev)) (hl : NoLegacy cfg)
